@@ -25,7 +25,7 @@ def program(spec, loops):
     """spec: tuple of pattern ids per competitor; loops: tuple of loop names (None = parent's loop)."""
     out = []
     for i, s in enumerate(spec):
-        if loops[i]:
+        if loops[i] and not loops[i].startswith("W"):
             out.append('@loop("%s")' % loops[i])
         out.append("flow c%d $p $act" % i)
         out.append("  priority $p")
@@ -39,10 +39,22 @@ def program(spec, loops):
         out.append("  $done = True")
         out.append("  match Never()")
         out.append("")
+    worker = bool(loops[0]) and loops[0].startswith("W")
+    if worker:
+        out.append('@loop("NEW")')
+        out.append("flow worker $k $p $act")
+        for i in range(len(spec)):
+            out.append("  %s $k == %d" % ("if" if i == 0 else "elif", i))
+            out.append("    start c%d $p $act" % i)
+        out.append("  match Never()")
+        out.append("")
     out.append("flow main")
     out.append("  match Init() as $i")
     for i in range(len(spec)):
-        out.append("  start c%d $i.p%d $i.a%d" % (i, i, i))
+        if worker:
+            out.append("  start worker %d $i.p%d $i.a%d" % (i, i, i))
+        else:
+            out.append("  start c%d $i.p%d $i.a%d" % (i, i, i))
     out.append("  match Never()")
     return "\n".join(out) + "\n"
 
@@ -57,7 +69,9 @@ def _decode(code, n, base):
 
 N = int(sl("n", 2))
 PAT = _decode(int(sl("spec", 0)), N, 4)
-LOOPS = {0: (None,) * N, 1: (None, "L1", None, None)[:N], 2: ("L0", "L1", "L2", "L3")[:N], 3: (None, "L1", "L1", None)[:N]}[int(sl("loops", 0))]
+LOOPV = int(sl("loops", 0))
+LOOPS = {0: (None,) * N, 1: (None, "L1", None, None)[:N], 2: ("L0", "L1", "L2", "L3")[:N], 3: (None, "L1", "L1", None)[:N],
+         4: ("W0", "W1", "W2", "W3")[:N]}[LOOPV]  # 4: undecorated competitors, each started by its own instance of a @loop("NEW") worker
 EVENT_NAMES = {0: ["A"], 1: ["B"], 2: ["StartUtteranceBotAction"]}
 
 
@@ -235,6 +249,7 @@ def _spec_code(t):
 
 _Q2 = [{"n": 2, "spec": _spec_code((s0, s1)), "loops": 0} for s0 in range(4) for s1 in range(4)]
 _L2 = [{"n": 2, "spec": _spec_code(t), "loops": l} for t in ((0, 0), (1, 0), (1, 1), (2, 1)) for l in (1, 2)]
+_L4 = [{"n": 2, "spec": _spec_code(t), "loops": 4} for t in ((0, 0), (1, 0))]
 _T3 = [{"n": 3, "spec": _spec_code((s0, s1, s2)), "loops": 0} for s0 in range(4) for s1 in range(4) for s2 in range(4)]
 _T3L = [{"n": 3, "spec": _spec_code(t), "loops": 3} for t in ((0, 0, 0), (1, 0, 1), (2, 1, 0), (1, 1, 2))]
 
@@ -243,7 +258,7 @@ SPEC = {
     "functions": FUNCTIONS,
     "bounds": "2 competitors (quick) / 3 (thorough), every specificity vector over 4 patterns (Go(), Go(a=1), Go(a=1,b=2), Go(a=2)); priorities in {0.25, 0.45, 0.5, 1.0} (0.45 = 0.9*0.5 makes cross-specificity ties reachable)"
               "; actions per flow in {send A, send B, start UtteranceBotAction}; event payload a,b in 0..2, b present/absent, one extra parameter or none; "
-              "loop assignments: all same loop, one flow in a named loop, every flow in its own loop, two of three sharing a named loop; tie-break outcomes symbolic",
+              "loop assignments: all same loop, one flow in a named loop, every flow in its own loop, two of three sharing a named loop, every flow an undecorated child of its own instance of a @loop(\"NEW\") flow; tie-break outcomes symbolic",
     "outside": "more than 3 competitors; competing internal events; conflicts inside merged head groups (C07); other priority values",
     "assumptions": ["priorities are concrete floats selected by a symbolic index (symbolic reals cost ~5 s of solver time per path here)",
                     "observation = flow status + a flow-local marker variable set right after the competing action",
@@ -251,11 +266,11 @@ SPEC = {
     "explanation": "Oracle: per loop group, flows whose pattern fits form M; W = argmax 0.9^(#params-#mentioned)*priority; the observation must equal, for some w in W: "
                    "flows with an action identical to w's advanced, other members of M stopped, non-members untouched; exactly one action event per group.",
     "conditions": [
-        {"fn": "conflict2", "tiers": ("quick",), "slices": [dict(x, pmax=2, extra=0) for x in _Q2 + _L2[:4] if x["spec"] in (0, 1, 2, 3, 5, 6, 9, 10, 13, 15)], "tcond": 600, "tpath": 30,
+        {"fn": "conflict2", "tiers": ("quick",), "slices": [dict(x, pmax=2, extra=0) for x in _Q2 + _L2[:4] + _L4 if x["spec"] in (0, 1, 2, 3, 5, 6, 9, 10, 13, 15)], "tcond": 600, "tpath": 30,
          "bound": "n=2, 10 specificity vectors (one loop) + 2 loop variants; priorities {0.5,1.0,0.45}; no extra parameter",
          "smoke": [{"slice": {"n": 2, "spec": _spec_code((1, 0)), "loops": 0}, "args": dict(p0=2, p1=2, a0=0, a1=1, ea=1, eb=0, has_b=False, extra=False, c0=0)},
                    {"slice": {"n": 2, "spec": _spec_code((0, 0)), "loops": 0}, "args": dict(p0=1, p1=1, a0=2, a1=2, ea=0, eb=2, has_b=True, extra=True, c0=1)}]},
-        {"fn": "conflict2", "tiers": ("thorough",), "slices": _Q2 + _L2, "tcond": 1800, "tpath": 30, "bound": "n=2, all vectors + loop variants"},
+        {"fn": "conflict2", "tiers": ("thorough",), "slices": _Q2 + _L2 + _L4, "tcond": 1800, "tpath": 30, "bound": "n=2, all vectors + loop variants"},
         {"fn": "conflict3", "tiers": ("thorough",), "slices": _T3 + _T3L, "tcond": 3000, "tpath": 60, "bound": "n=3, all 64 specificity vectors + 4 loop variants"},
         {"fn": "tie_twin", "expect": "counterexample", "slices": [{"n": 2, "spec": 0, "loops": 0, "who": 0}, {"n": 2, "spec": 0, "loops": 0, "who": 1}], "tcond": 600, "tpath": 30,
          "bound": "each member of an exact tie wins for some tie-break outcome"},
